@@ -314,11 +314,19 @@ func (m *Muxer) retransmitTables(force bool) (int, error) {
 func (m *Muxer) WriteTables() (int, error) {
 	bytesWritten := 0
 
+	// Tables that can't be generated are not written: make sure they consume neither a continuity counter nor a version
+	patCC, pmtCC, patVersion, pmtVersion, pmUpdated := m.patCC, m.pmtCC, m.patVersion, m.pmtVersion, m.pmUpdated
+	rollback := func() {
+		m.patCC, m.pmtCC, m.patVersion, m.pmtVersion, m.pmUpdated = patCC, pmtCC, patVersion, pmtVersion, pmUpdated
+	}
+
 	if err := m.generatePAT(); err != nil {
+		rollback()
 		return bytesWritten, err
 	}
 
 	if err := m.generatePMT(); err != nil {
+		rollback()
 		return bytesWritten, err
 	}
 
